@@ -130,6 +130,7 @@ type NativeRunner struct {
 	overlay  map[string]string
 	prepared bool
 	Log      []string
+	Verbose  bool
 }
 
 func NewNativeRunner(p *Program, harnessDir string) (*NativeRunner, error) {
@@ -187,12 +188,22 @@ func (n *NativeRunner) prepare() error {
 			if err != nil {
 				return err
 			}
+			patched := false
+			for _, sp := range n.P.Patches {
+				if filepath.Join(repo, sp.File) == p && strings.Contains(string(src), sp.Old) {
+					src = []byte(strings.Replace(string(src), sp.Old, sp.New, 1))
+					patched = true
+				}
+			}
 			out, changed, err := rewriteClock(fset, p, src)
 			if err != nil {
 				return err
 			}
 			if changed {
 				return n.put(p, out)
+			}
+			if patched {
+				return n.put(p, src)
 			}
 			return nil
 		})
@@ -349,6 +360,9 @@ func (n *NativeRunner) RunSched(pkgPath string, cases []NativeCase, race bool, t
 	}
 	out, err := cmd.CombinedOutput()
 	txt := string(out)
+	if n.Verbose {
+		fmt.Println(txt)
+	}
 	res := make([]NativeOutcome, len(cases))
 	for i := range res {
 		res[i].Outcome = "error:no output"
